@@ -66,7 +66,7 @@ def env_points(e):
 def seg(v0, v1, c, p):
     if c == 0:
         return v0 + (v1 - v0) * p
-    return v0 + (v1 - v0) / (math.exp(c) - 1) * (math.exp(c * p) - 1)
+    return v0 + (v1 - v0) * math.expm1(c * p) / math.expm1(c)      # the documented curve, evaluated without cancellation
 
 
 def ref_value_at(e, t):
